@@ -321,6 +321,7 @@ func ExecO(c OCase) (res core.Result) {
 	registerSyn()
 	defer func() {
 		if r := recover(); r != nil {
+			core.HarnessPanic(r)
 			res = core.Result{Viol: core.Violate("C13/panic", "panic: %v", r)}
 		}
 	}()
